@@ -62,6 +62,10 @@ CHECKS["C11"] = dict(
     text="Proved for ANY number of signalling threads with ANY programs of stop()/wakeup()/waker.wake(), ANY future script and ANY schedule (one atomic flag access, notify or wait per step): the loop is never blocked in its wait while a notification is pending (a wakeup issued just before the wait is kept); wakeup() ends the wait in progress or stays for the next one, which then returns at once; after stop()+wakeup() issued after the initial reset the loop is `told`, this is stable under every step of every thread, and the loop returns within three of its own steps (at most the iteration in progress); run() returns Ok / block_on returns None only after a stop request since it began; in block_on a set future_ready flag always has a way to make the loop poll again (before its swap, pending notification, or the waker about to notify). Correspondence: ~450 schedules per quick run with the loop thread REALLY blocking in epoll_wait (native-block detection), step/yield-id/observation traces equal to the extracted model, + an oracle on the real traces.",
     note="Poller::notify/wait atomicity and stickiness are the assumed environment. 'After run() has begun' is read as 'after its initial store(false)': a stop() landing before that store is erased by it (recorded observation, DESIGN.md section 5). No axioms.",
     technique="Coq proof (invariant by induction over arbitrary schedules, brute-force case analysis per step) + controlled-scheduler differential correspondence with native blocking", ref="DESIGN.md 4 (C11)")
+CHECKS["C10"] = dict(
+    text="Proved for ANY number of tasks with ANY poll scripts, ANY schedule/dispatch program of the loop thread, ANY number of waker threads with ANY wake programs, ANY batch limit and ANY schedule (one mpsc enqueue, notified swap/store, eventfd write/read, poll or try_recv per step): a queued runnable always has a wake-up on its way and the notified flag is only set while the eventfd is readable, its setter is about to ping, or the loop is about to clear it (C10_no_lost_wake - the #227 regression breaks exactly this); tasks are polled and their results delivered only by steps of the loop thread; a completing poll delivers the output exactly once. PARTIAL: Executor::drop (all futures dropped, ExecutorDestroyed; finding F13 for a drop racing a wake) and StreamSource are not in the proved model; StreamSource is run sequentially against its specification (items in order once, one None, removal). Correspondence: ~500 schedules per quick run on real threads vs the extracted model (identical step/yield-id/poll/completion traces) + an oracle (every enqueued runnable polled, outputs once, loop-thread-only polls and drops).",
+    note="async-task and slab are assumed (DESIGN.md 6.5). Wakes during a poll cannot be scheduled by the baton scheduler (no yield point inside a poll). The 1024 batch limit is proved for an arbitrary limit; the real constant is exercised only by calloop's own more_than_1024 test. No axioms.",
+    technique="Coq proof (invariant by induction over arbitrary schedules) + controlled-scheduler differential correspondence on real threads", ref="DESIGN.md 4 (C10)")
 
 def main():
     props = [json.loads(l) for l in open(os.path.join(ROOT, "properties.jsonl"))]
